@@ -1,6 +1,7 @@
 package c15
 
 import (
+	"time"
 	"context"
 	"encoding/base64"
 	"fmt"
@@ -90,6 +91,27 @@ var pagers = []pager{
 		}
 		s := hailpb.NewModelServer(m)
 		return sorted(got), func(size int32, token string, mask *fieldmaskpb.FieldMask) ([]proto.Message, string, int32, error) {
+			r, err := s.ListHails(ctx, &traits.ListHailsRequest{Name: "n", PageSize: size, PageToken: token, ReadMask: mask})
+			if err != nil {
+				return nil, "", 0, err
+			}
+			return toMsgs(r.Hails), r.NextPageToken, r.TotalSize, nil
+		}
+	}, key: func(m proto.Message) string { return m.(*traits.Hail).Id }},
+	{name: "ListHails(initial records, arrived long ago)", setup: func(ids []string) ([]string, listFn) {
+		// a model restored from stored state: hails under their own ids, every other one arrived an hour or more ago
+		// (older than any keep-alive). Listing is a read: whatever housekeeping the model has, a walk returns them all
+		var opts []resource.Option
+		for i, id := range ids {
+			h := &traits.Hail{Id: id, State: traits.Hail_CALLED, Origin: &traits.Hail_Location{Name: "o"}}
+			if i%2 == 0 {
+				h.State = traits.Hail_ARRIVED
+				h.ArriveTime = timestamppb.New(time.Now().Add(-time.Duration(i+1) * time.Hour))
+			}
+			opts = append(opts, resource.WithInitialRecord(id, h))
+		}
+		s := hailpb.NewModelServer(hailpb.NewModel(opts...))
+		return sorted(append([]string(nil), ids...)), func(size int32, token string, mask *fieldmaskpb.FieldMask) ([]proto.Message, string, int32, error) {
 			r, err := s.ListHails(ctx, &traits.ListHailsRequest{Name: "n", PageSize: size, PageToken: token, ReadMask: mask})
 			if err != nil {
 				return nil, "", 0, err
@@ -205,7 +227,7 @@ var pagers = []pager{
 }
 
 // keyField is the proto field each listing is keyed (and its page token built) by.
-var keyField = map[string]string{"ListModes": "id", "ListHails": "id", "ListChildren": "name", "ListChildren(case-insensitive ids)": "name", "ListPublications": "id",
+var keyField = map[string]string{"ListModes": "id", "ListHails": "id", "ListHails(initial records, arrived long ago)": "id", "ListChildren": "name", "ListChildren(case-insensitive ids)": "name", "ListPublications": "id",
 	"ListConsumables": "name", "ListInventory": "consumable", "ListWasteRecords": "id"}
 
 func effectiveSize(size int32) int {
@@ -389,6 +411,19 @@ func TestPaging(t *testing.T) {
 					}
 					if !proto.Equal(lib.DropEmptyOnPaths(proto.Clone(mItems[i]), mask), wantItem) {
 						lib.Ev.Class("paging:read mask not applied by " + p.name + " (not judged here)")
+					}
+				}
+				// listing is a read: the plain walk afterwards returns what the plain walk before returned
+				again, _, err := follow(list, size, "", nil, len(want), true)
+				if err != nil {
+					t.Fatalf("%s: the plain walk after the masked one: %v\n ids: %q", mdesc, err, want)
+				}
+				if len(again) != len(gotItems) {
+					t.Fatalf("%s: the plain walk after the masked one enumerates %d items, before it %d", mdesc, len(again), len(gotItems))
+				}
+				for i := range again {
+					if !proto.Equal(again[i], gotItems[i]) {
+						t.Fatalf("%s: after the masked walk item %d reads %v, before it read %v: listing with a read mask changed the contents", mdesc, i, again[i], gotItems[i])
 					}
 				}
 				lib.Ev.Class("paging:walk repeated with a read mask")
